@@ -95,7 +95,32 @@ class Step:
         self.regex: Optional[RegexFacts] = None
 
 
-def _unwind(v: Any, inp: SObj) -> Tuple[Optional[List[Step]], str]:
+def _callback_image(interp: Any, cb: Any, ch: str) -> Any:
+    """What the replacement callback `cb` returns for a match whose text is `ch` (Engine A, one path, a constant) or None."""
+    from .interp import Config, _Raise
+    from .values import SOpaque
+
+    def body(run: Any) -> Tuple[Any, ...]:
+        m = SOpaque(("match", ch))
+        m.__dict__["match_text"] = ch
+        try:
+            return ("return", run.ev.call_function(cb, [m], {}))
+        except _Raise as r:
+            return ("raise", r.exc)
+
+    try:
+        leaves = interp.explore(body, Config())
+    except Unmodelled:
+        return None
+    if len(leaves) != 1 or leaves[0].kind != "return":
+        return None
+    r = leaves[0].value
+    if isinstance(r, SStr) and r.is_const():
+        r = r.const()
+    return r if isinstance(r, str) else None
+
+
+def _unwind(v: Any, inp: SObj, interp: Any = None) -> Tuple[Optional[List[Step]], str]:
     """Decompose a returned abstract string into the chain of replacement steps applied to the input."""
     steps: List[Step] = []
     cur = v
@@ -133,11 +158,35 @@ def _unwind(v: Any, inp: SObj) -> Tuple[Optional[List[Step]], str]:
                 fl = 0
             st.regex = RegexFacts(args[0], fl)
             if not isinstance(args[1], str):
-                return None, f"re.sub with a callable/non-constant replacement {short(args[1])}"
+                # a callback: read off its image for every character the (single-character) pattern can match
+                from .values import SFunc
+                chars = st.regex.single_char_set(_PROBE)
+                if not isinstance(args[1], SFunc) or interp is None or chars is None:
+                    return None, f"re.sub with a callable/non-constant replacement {short(args[1])}"
+                mapping: Dict[str, str] = {}
+                for c_ in sorted(chars):
+                    img = _callback_image(interp, args[1], c_)
+                    if img is None:
+                        return None, f"re.sub callback {short(args[1])}: result for {c_!r} is not a constant string"
+                    mapping[c_] = img
+                st.kind = "mapsub"
+                st.__dict__["mapping"] = mapping
+                st.count = kw.get("count", args[3] if len(args) > 3 else None)
+                steps.append(st)
+                cur = args[2]
+                continue
             st.value = args[1]
             st.count = kw.get("count", args[3] if len(args) > 3 else None)
             steps.append(st)
             cur = args[2]
+            continue
+        if f.kind == "OP" and isinstance(f.a, tuple) and f.a[:1] == ("str.translate",) and len(f.a) == 2 and isinstance(f.a[1], tuple):
+            st = Step("mapsub", "str.translate(<table>)")
+            st.__dict__["mapping"] = dict(f.a[1])
+            if any(len(k_) != 1 for k_ in st.__dict__["mapping"]):
+                return None, "translate table with multi-character keys"
+            steps.append(st)
+            cur = f.b
             continue
         return None, f"returns {short(cur)}: operation not recognised as a character replacement"
 
@@ -147,6 +196,9 @@ def _apply_chain(steps: List[Step], ch: str) -> str:
     for st in steps:
         if st.kind == "replace":
             cur = cur.replace(st.key, st.value)  # type: ignore[arg-type]
+        elif st.kind == "mapsub":
+            mp = st.__dict__["mapping"]
+            cur = "".join(mp.get(c_, c_) for c_ in cur)          # all at once: images are not looked at again
         else:
             assert st.regex is not None
             cur = re.compile(st.regex.pattern, st.regex.flags).sub(st.value.replace("\\", "\\\\"), cur)  # type: ignore[union-attr]
@@ -200,7 +252,7 @@ def check_escape_function(ctx: Ctx, modes: List[str], rule: str, strict_other: b
             if leaf.kind == "raise":
                 ctx.fail(f"{rule}.E4", ESC, f"raise on a path ({mode} mode)", f"html_escape raises {short(leaf.value)} for some strings in {mode} mode")
                 continue
-            steps, why = _unwind(leaf.value, inp)
+            steps, why = _unwind(leaf.value, inp, I)
             greads = [e for e in leaf.effects if e.kind == "global_read"]
             if steps is None:
                 v = leaf.value
